@@ -19,6 +19,8 @@ type Config struct {
 	MaxConcrete int // max values when concretising a symbolic integer
 	PruneFrom   int // loop-exit branches are pruned by the solver from this iteration on
 	Cut         int // >0: a symbolic loop is assumed to exit after this many iterations (stated bound)
+	PruneAll    bool // every symbolic branch is checked for feasibility of both arms before merging
+	ConcF2I     bool // a symbolic float->int conversion is concretised by forking over its feasible values
 }
 
 type jent struct {
